@@ -25,6 +25,8 @@ impl TestFunction {
 
 impl Query for FnArg {
     fn process<'a, T: Queryable>(&self, step: State<'a, T>) -> State<'a, T> {
+        #[cfg(jsonpath_rust_verif)]
+        crate::verif::point(12);
         match self {
             FnArg::Literal(lit) => lit.process(step),
             FnArg::Test(test) => test.process(step),
@@ -35,6 +37,8 @@ impl Query for FnArg {
 
 impl Query for TestFunction {
     fn process<'a, T: Queryable>(&self, step: State<'a, T>) -> State<'a, T> {
+        #[cfg(jsonpath_rust_verif)]
+        crate::verif::point(13);
         self.apply(step)
     }
 }
@@ -119,6 +123,8 @@ fn count<T: Queryable>(state: State<T>) -> State<T> {
 fn regex<'a, T: Queryable>(lhs: State<'a, T>, rhs: State<'a, T>, substr: bool) -> State<'a, T> {
     let to_state = |b| State::bool(b, lhs.root);
     let regex = |v: &str, r: Regex| {
+        #[cfg(jsonpath_rust_verif)]
+        crate::verif::point(16);
         if substr {
             r.find(v).is_some()
         } else {
